@@ -715,3 +715,14 @@ func vBreakLineOrphansWidows() (int, []string) {
 //@   assert after box.TextIndent#1: skipStack == nil
 //@   assert after box.TextIndent#2: skipStack != nil && box.TextIndent == pr.Float(0)
 //@   shows[indent-resolved-for-the-first-line-only] calls(resolveOnePercentage) == ite(skipStack == nil, 1, 0)
+
+// "text-indent shifts the first line only" and "its content never exceeds the available width" (C11): the indent
+// moves the START of the line's content; the right limit handed to the line splitter stays at the start of the
+// line box plus the available width, so an indented line is shorter by the indent, not shifted as a whole.
+//@ func getNextLinebox
+//@   props C11
+//@   requires linebox != nil
+//@   modifies anything
+//@   unclaimed call-*-pre* "box accessors on boxes under layout"
+//@   assert after maxX#1: maxX == linebox.PositionX + availableWidth
+//@   call splitInlineBox#1 assert[starts-after-the-indent-ends-at-the-container-edge] arg1 == linebox && arg2 == positionX && arg3 == maxX && arg5 == skipStack
